@@ -4,7 +4,11 @@ use syn::{punctuated::Punctuated, Data, DeriveInput, Field, Fields, Meta, Type, 
 use super::models::{FieldAttribute, FieldAttributeBuilder, TypeAttributeBuilder};
 #[cfg(feature = "Copy")]
 use crate::common::{
-    bound::Bound, where_predicates_bool::create_where_predicates_from_generic_parameters_check_types,
+    bound::Bound,
+    where_predicates_bool::{
+        create_where_predicates_from_all_generic_parameters,
+        create_where_predicates_from_generic_parameters_check_types,
+    },
 };
 use crate::{
     common::where_predicates_bool::WherePredicates, supported_traits::Trait, TraitHandler,
@@ -77,17 +81,32 @@ impl TraitHandler for CloneEnumHandler {
             // be `Clone`, but the type can only be `Copy` if every field is
             #[cfg(feature = "Copy")]
             if has_custom_clone_method && traits.contains(&Trait::Copy) {
-                if let Bound::Auto = type_attribute.bound {
-                    let all_types: Vec<&Type> = variants
-                        .iter()
-                        .flat_map(|(_, variant_fields)| variant_fields.iter().map(|(field, _)| &field.ty))
-                        .collect();
+                let copy_trait = syn::parse2(quote!(::core::marker::Copy)).unwrap();
 
-                    copy_bound = Some(create_where_predicates_from_generic_parameters_check_types(
-                        &syn::parse2(quote!(::core::marker::Copy)).unwrap(),
-                        &all_types,
-                        &[],
-                    ));
+                match &type_attribute.bound {
+                    Bound::Auto => {
+                        let all_types: Vec<&Type> = variants
+                            .iter()
+                            .flat_map(|(_, variant_fields)| {
+                                variant_fields.iter().map(|(field, _)| &field.ty)
+                            })
+                            .collect();
+
+                        copy_bound =
+                            Some(create_where_predicates_from_generic_parameters_check_types(
+                                &copy_trait,
+                                &all_types,
+                                &[],
+                            ));
+                    },
+                    Bound::All => {
+                        copy_bound = Some(create_where_predicates_from_all_generic_parameters(
+                            &ast.generics.params,
+                            &copy_trait,
+                        ));
+                    },
+                    // explicit predicates (or none) are the user's for both impls
+                    Bound::Custom(_) | Bound::Disabled => (),
                 }
             }
 
